@@ -383,15 +383,106 @@ def _defined(tree, c):
     return z3.And(*conds) if conds else z3.BoolVal(True)
 
 
+# layouts of adjacent bound memory cells (widths in bits, in address order from the base) and the reads made over them
+CELL_LAYOUTS = [((8, 32), [(0, 16), (0, 32), (1, 16), (1, 32)]), ((16, 32), [(0, 32), (2, 32), (0, 16)]), ((8, 8, 32), [(0, 16), (0, 32), (1, 32)]),
+                ((16, 64), [(0, 32), (0, 64)]), ((32, 8), [(0, 32), (0, 64) if False else (4, 8)]), ((8, 16, 8), [(0, 32), (1, 16), (0, 16)]),
+                ((32, 32), [(0, 64), (4, 32), (0, 32)]), ((64, 8), [(0, 64), (8, 8)])]
+
+
+def cell_cases(tier):
+    out = []
+    for layout, reads in CELL_LAYOUTS:
+        for off, w in reads:
+            for base in ('const', 'reg'):
+                out.append(('cells', layout, off, w, base))
+    return out
+
+
+def check_cells(case, res, tier):
+    """a read over several adjacent bound cells (every cell a symbolic constant) must evaluate to the bytes bound in the state"""
+    _, layout, off, w, base = case
+    name = 'cells %s read @%d[base+%d] base:%s' % ('+'.join(str(x) for x in layout), w, off, base)
+    UC = {8: M.uint8, 16: M.uint16, 32: M.uint32, 64: M.uint64}
+    eng = Engine(width=200, timeout_ms=20000, max_paths=200, max_seconds=60)
+    total = sum(layout) // 8
+    if off + w // 8 > total:
+        return
+
+    def fn(eng):
+        b0 = X.ExprInt(M.uint32(0x1000)) if base == 'const' else X.ExprId('p', 32)
+        state = {}
+        vals = []
+        pos = 0
+        for k, cw in enumerate(layout):
+            v = SInt.var('c%d' % k, 0, (1 << cw) - 1)
+            vals.append((pos, cw, v))
+            ad = b0 if pos == 0 else H.expr_simp(X.ExprOp('+', b0, X.ExprInt(M.uint32(pos))))
+            state[X.ExprMem(ad, cw)] = X.ExprInt(UC[cw](v))
+            pos += cw // 8
+        machine = EA.eval_abs(state)
+        rd = X.ExprMem(b0 if off == 0 else X.ExprOp('+', b0, X.ExprInt(M.uint32(off))), w)
+        try:
+            r = machine.eval_expr(rd, {})
+        except PathAbort:
+            raise
+        except Exception as ex:
+            return ('CEX', 'exc:%s' % type(ex).__name__, 'evaluation raises %s: %s' % (type(ex).__name__, str(ex)[:60]), eng.model_inputs(eng.witness()))
+        # expected: little-endian bytes of the cells
+        want = None
+        for byte in range(off, off + w // 8):
+            for pos_, cw, v in vals:
+                if pos_ <= byte < pos_ + cw // 8:
+                    t = z3.Extract(8 * (byte - pos_) + 7, 8 * (byte - pos_), core.term_of(v))
+                    want = t if want is None else z3.Concat(t, want)
+        c = ir2smt.Ctx(strict=False, flat=True)
+        try:
+            got = ir2smt.tr(r, c, want=w)
+        except (ir2smt.IllTyped, ir2smt.Untranslatable) as ex:
+            return ('CEX', 'illformed', 'result %s is not well-formed: %s' % (r, ex), eng.model_inputs(eng.witness()))
+        if got.size() != w:
+            return ('CEX', 'width', 'result has %d bits, the read %d' % (got.size(), w), eng.model_inputs(eng.witness()))
+        st, m = eng.find(got != want)
+        if st == 'sat':
+            return ('CEX', 'value', 'the read evaluates to %s, not to the bytes bound in the state' % r, eng.model_inputs(m))
+        if st != 'unsat':
+            return ('UNKNOWN',)
+        return ('OK',)
+    rs = eng.explore(fn)
+    res['paths'] += eng.stats['paths']
+    res['queries'] += eng.stats['queries']
+    res['solver_s'] += eng.stats['solver_s']
+    ok = 0
+    for r in rs:
+        res['obligations'] += 1
+        if r[0] == 'OK':
+            res['proved'] += 1
+            ok += 1
+        elif r[0] == 'CEX':
+            res['candidates'].append({'key': 'cells:%s:%s:r%d@%d:%s' % (r[1], '+'.join(str(x) for x in layout), w, off, base), 'desc': '%s: %s with %s' % (name, r[2], r[3]),
+                                      'data': {'kind': 'cells', 'layout': list(layout), 'off': off, 'w': w, 'base': base, 'vals': r[3]}})
+        else:
+            res['inconclusive'].append('%s: %s' % (name, r[1] if len(r) > 1 else r[0]))
+    for u in eng.unexplored:
+        res['inconclusive'].append('%s: %s' % (name, u))
+    if ok:
+        res['nontrivial'] += 1
+
+
 def jobs(tier, seed):
     cs = cases(tier, seed)
-    return [('chunk', tier, cs[i:i + CHUNK]) for i in range(0, len(cs), CHUNK)]
+    cc = cell_cases(tier)
+    return [('chunk', tier, cs[i:i + CHUNK]) for i in range(0, len(cs), CHUNK)] + [('chunk', tier, cc[i:i + 12]) for i in range(0, len(cc), 12)]
 
 
 def run_job(job):
     _, tier, items = job
     res = {'paths': 0, 'queries': 0, 'solver_s': 0.0, 'obligations': 0, 'proved': 0, 'candidates': [],
            'inconclusive': [], 'samples': [], 'programs': 0, 'nontrivial': 0}
+    if items and items[0][0] == 'cells':
+        for it in items:
+            res['programs'] += 1
+            check_cells(it, res, tier)
+        return res
     for it in items:
         res['programs'] += 1
         check_case(it, res, tier)
@@ -462,7 +553,37 @@ sys.exit(1 if bad else 0)
 '''
 
 
+REPLAY_CELLS = r'''
+# replay of a C06 counterexample (read over several adjacent bound cells) on the real eval_abs (exit 1 = property violated)
+import sys
+import miasmx.expression.expression as X, miasmx.tools.modint as M
+import miasmx.expression.expression_helper as H, miasmx.expression.expression_eval_abstract as EA
+D = %(data)r
+UC = {8: M.uint8, 16: M.uint16, 32: M.uint32, 64: M.uint64}
+b0 = X.ExprInt(M.uint32(0x1000)) if D['base'] == 'const' else X.ExprId('p', 32)
+state = {}; mem = {}; pos = 0
+for k, cw in enumerate(D['layout']):
+    v = D['vals'].get('c%%d' %% k, 0)
+    ad = b0 if pos == 0 else H.expr_simp(X.ExprOp('+', b0, X.ExprInt(M.uint32(pos))))
+    state[X.ExprMem(ad, cw)] = X.ExprInt(UC[cw](v))
+    for j in range(cw // 8): mem[pos + j] = (v >> (8 * j)) & 0xFF
+    pos += cw // 8
+rd = X.ExprMem(b0 if D['off'] == 0 else X.ExprOp('+', b0, X.ExprInt(M.uint32(D['off']))), D['w'])
+want = sum(mem[D['off'] + j] << (8 * j) for j in range(D['w'] // 8))
+try:
+    r = H.expr_simp(EA.eval_abs(state).eval_expr(rd, {}))
+    print(rd, '->', r, '| bytes bound in the state: %%#x' %% want)
+    bad = not (isinstance(r, X.ExprInt) and int(r.arg) == want and r.get_size() == D['w'])
+except Exception as ex:
+    print('evaluation raises', type(ex).__name__, ex); bad = True
+print('C06 replay:', 'VIOLATED' if bad else 'holds')
+sys.exit(1 if bad else 0)
+'''
+
+
 def make_replay(cnd):
+    if cnd['data'].get('kind') == 'cells':
+        return REPLAY_CELLS % {'data': cnd['data']}
     return REPLAY % {'data': cnd['data']}
 
 
@@ -471,7 +592,7 @@ def main(argv=None):
     t0 = time.time()
     js = jobs(a.tier, a.seed)
     if a.only:
-        js = [(k, t, [it for it in items if a.only in G.show(it[0])]) for k, t, items in js]
+        js = [(k, t, [it for it in items if a.only in (repr(it) if it[0] == 'cells' else G.show(it[0]))]) for k, t, items in js]
         js = [j for j in js if j[2]]
     results, left = common.run_pool('vf.checks.c06', js, nproc=a.nproc, budget_s=1500 if a.tier == 'quick' else 5400)
     cov, cands, inconc, herr = c05.aggregate(results, left)
